@@ -13,7 +13,9 @@ package main
 
 import (
 	"go/ast"
+	"go/token"
 	"go/types"
+	"sort"
 
 	"golang.org/x/tools/go/cfg"
 )
@@ -188,4 +190,417 @@ func (c *Ctx) runMergeFirst(r *Report, rule string) {
 		}
 	}
 	r.inst("spirv.mergefirst", n)
+}
+
+// spirv.blockstate (C02, C10): the emitter writes instructions into a current
+// block; consumeBlock(terminator) terminates and closes it (the current block
+// becomes nil), setCurrentBlock(b) opens the next one. Within a function, on no
+// control-flow path may consumeBlock be reached while the current block is
+// definitely closed (nil dereference, and a terminator without a block), nor
+// setCurrentBlock while it is definitely open (the open block is dropped
+// unterminated with the instructions emitted into it), nor e.currentBlock.X be
+// read while definitely closed.
+//
+// Four-valued forward analysis over go/cfg (bottom / open / closed / unknown;
+// different states join to unknown). Calls are interpreted through per-function
+// summaries - the state in which the callee returns on its non-error returns
+// when entered with an open block - computed as the least fixed point over the
+// package (bottom = "has not been seen to return yet", which makes recursion
+// through emitStatement / emitBlock converge from below). A test of
+// e.currentBlock against nil refines the state on its two branches. A call of a
+// local closure or of a function value gives unknown. Methods of the emitter are
+// entered with an open block; function-level drivers with unknown.
+func (c *Ctx) runBlockState(r *Report, rule string) {
+	const (
+		bot    = -1
+		unk    = 0
+		open   = 1
+		closed = 2
+	)
+	join := func(a, b int8) int8 {
+		switch {
+		case a == bot:
+			return b
+		case b == bot:
+			return a
+		case a == b:
+			return a
+		}
+		return unk
+	}
+	var consumeF, setF *types.Func
+	var funcs []*funcInfo
+	for _, fn := range c.allFuncs() {
+		if fn.Pkg.Rel != "spirv/internal/codegen" || fn.Obj == nil {
+			continue
+		}
+		switch fn.Name {
+		case "ExpressionEmitter.consumeBlock":
+			consumeF = fn.Obj
+			continue
+		case "ExpressionEmitter.setCurrentBlock":
+			setF = fn.Obj
+			continue
+		}
+		funcs = append(funcs, fn)
+	}
+	if consumeF == nil || setF == nil {
+		r.undecided(rule, "spirv/internal/codegen:consumeBlock/setCurrentBlock", "", "block open/close functions not found")
+		return
+	}
+	isCurBlock := func(info *types.Info, e ast.Expr) bool {
+		se, ok := ast.Unparen(e).(*ast.SelectorExpr)
+		if !ok || se.Sel.Name != "currentBlock" {
+			return false
+		}
+		v, ok := info.Uses[se.Sel].(*types.Var)
+		return ok && v.IsField()
+	}
+	isNil := func(info *types.Info, e ast.Expr) bool {
+		id, ok := ast.Unparen(e).(*ast.Ident)
+		if !ok {
+			return false
+		}
+		_, isN := info.Uses[id].(*types.Nil)
+		return isN
+	}
+	// functions that change the block state, directly or through callees
+	changes := map[*types.Func]bool{consumeF: true, setF: true}
+	writesField := func(fn *funcInfo) bool {
+		hit := false
+		ast.Inspect(fn.Decl.Body, func(m ast.Node) bool {
+			if as, ok := m.(*ast.AssignStmt); ok {
+				for _, l := range as.Lhs {
+					if isCurBlock(fn.Pkg.Info, l) {
+						hit = true
+					}
+				}
+			}
+			return !hit
+		})
+		return hit
+	}
+	for _, fn := range funcs {
+		if writesField(fn) {
+			changes[fn.Obj] = true
+		}
+	}
+	for changed := true; changed; {
+		changed = false
+		for _, fn := range funcs {
+			if changes[fn.Obj] {
+				continue
+			}
+			info := fn.Pkg.Info
+			ast.Inspect(fn.Decl.Body, func(m ast.Node) bool {
+				if call, ok := m.(*ast.CallExpr); ok {
+					if f := calleeOf(info, call); f != nil && changes[f.Origin()] {
+						changes[fn.Obj] = true
+						changed = true
+					}
+				}
+				return !changes[fn.Obj]
+			})
+		}
+	}
+	entryOf := func(fn *funcInfo) int8 {
+		if sig, ok := fn.Obj.Type().(*types.Signature); ok && sig.Recv() != nil && namedName(sig.Recv().Type()) == "ExpressionEmitter" {
+			return open
+		}
+		return unk
+	}
+	summary := map[*types.Func]int8{consumeF: closed, setF: open}
+	for _, fn := range funcs {
+		if changes[fn.Obj] {
+			summary[fn.Obj] = bot
+		}
+	}
+	type siteRes struct {
+		node ast.Node
+		desc string
+		msg  string
+	}
+	errorT := types.Universe.Lookup("error").Type()
+	analyse := func(fn *funcInfo, report bool) (int8, []siteRes) {
+		info := fn.Pkg.Info
+		// returns that are error returns: `return ..., err` directly inside `if err != nil {`, or a freshly made error
+		errReturn := map[*ast.ReturnStmt]bool{}
+		ast.Inspect(fn.Decl.Body, func(m ast.Node) bool {
+			ifs, ok := m.(*ast.IfStmt)
+			if !ok {
+				return true
+			}
+			be, ok := ast.Unparen(ifs.Cond).(*ast.BinaryExpr)
+			if !ok || be.Op != token.NEQ || !isNil(info, be.Y) {
+				return true
+			}
+			cid, ok := ast.Unparen(be.X).(*ast.Ident)
+			if !ok || !types.Identical(info.TypeOf(cid), errorT) {
+				return true
+			}
+			for _, st := range ifs.Body.List {
+				if rs, ok := st.(*ast.ReturnStmt); ok && len(rs.Results) > 0 {
+					if id, ok := ast.Unparen(rs.Results[len(rs.Results)-1]).(*ast.Ident); ok && info.Uses[id] == info.Uses[cid] {
+						errReturn[rs] = true
+					}
+				}
+			}
+			return true
+		})
+		isErrReturn := func(rs *ast.ReturnStmt) bool {
+			if errReturn[rs] {
+				return true
+			}
+			if len(rs.Results) == 0 {
+				return false
+			}
+			last := ast.Unparen(rs.Results[len(rs.Results)-1])
+			if call, ok := last.(*ast.CallExpr); ok && types.Identical(info.TypeOf(call), errorT) {
+				if f := calleeOf(info, call); f != nil && f.Pkg() != nil && (f.Pkg().Path() == "fmt" && f.Name() == "Errorf" || f.Pkg().Path() == "errors" && f.Name() == "New") {
+					return true
+				}
+			}
+			return false
+		}
+		hasClosure := false
+		ast.Inspect(fn.Decl.Body, func(m ast.Node) bool {
+			if _, ok := m.(*ast.FuncLit); ok {
+				hasClosure = true
+			}
+			return !hasClosure
+		})
+		g := cfg.New(fn.Decl.Body, func(*ast.CallExpr) bool { return true })
+		in := make([]int8, len(g.Blocks))
+		for i := range in {
+			in[i] = bot
+		}
+		in[0] = entryOf(fn)
+		work := []int32{0}
+		queued := map[int32]bool{0: true}
+		bad := map[ast.Node]string{}
+		siteSeen := map[ast.Node]string{}
+		var order []ast.Node
+		note := func(nd ast.Node, desc string) {
+			if _, s := siteSeen[nd]; !s {
+				siteSeen[nd] = desc
+				order = append(order, nd)
+			}
+		}
+		exit := int8(bot)
+		for len(work) > 0 {
+			bi := work[0]
+			work = work[1:]
+			queued[bi] = false
+			st := in[bi]
+			blk := g.Blocks[bi]
+			var refine ast.Expr
+			for ni, nd := range blk.Nodes {
+				if st == bot {
+					break
+				}
+				// reads of e.currentBlock.X
+				ast.Inspect(nd, func(m ast.Node) bool {
+					switch x := m.(type) {
+					case *ast.FuncLit:
+						return false
+					case *ast.SelectorExpr:
+						if isCurBlock(info, x.X) {
+							note(x, "currentBlock."+x.Sel.Name)
+							if st == closed {
+								bad[x] = "e.currentBlock." + x.Sel.Name + " is read while the current block is closed (nil)"
+							}
+						}
+					case *ast.StarExpr:
+						if isCurBlock(info, x.X) {
+							note(x, "*currentBlock")
+							if st == closed {
+								bad[x] = "*e.currentBlock is read while the current block is closed (nil)"
+							}
+						}
+					}
+					return true
+				})
+				for _, call := range callsIn(nd) {
+					f := calleeOf(info, call)
+					if f != nil {
+						f = f.Origin()
+					}
+					switch {
+					case f == consumeF:
+						note(call, "consumeBlock")
+						if st == closed {
+							bad[call] = "consumeBlock is reached while the current block is already closed (nil)"
+						}
+						st = closed
+					case f == setF:
+						note(call, "setCurrentBlock")
+						if st == open {
+							bad[call] = "setCurrentBlock is reached while the current block is still open: that block is dropped without a terminator, with the instructions emitted into it"
+						}
+						st = open
+					case f != nil && changes[f]:
+						s := summary[f]
+						switch {
+						case s == bot:
+							st = bot
+						case st == open || entryOf(&funcInfo{Obj: f}) == unk:
+							st = s
+						default:
+							st = unk
+						}
+					case f == nil && hasClosure:
+						if _, isConv := info.Types[call.Fun]; isConv && info.Types[call.Fun].IsType() {
+							break
+						}
+						if _, isB := info.Uses[identOf(call.Fun)].(*types.Builtin); isB {
+							break
+						}
+						st = unk
+					}
+					if st == bot {
+						break
+					}
+				}
+				if st == bot {
+					break
+				}
+				if as, ok := nd.(*ast.AssignStmt); ok {
+					for li, l := range as.Lhs {
+						if isCurBlock(info, l) && li < len(as.Rhs) {
+							if isNil(info, as.Rhs[li]) {
+								st = closed
+							} else {
+								st = open
+							}
+						}
+					}
+				}
+				if ni == len(blk.Nodes)-1 {
+					if e, ok := nd.(ast.Expr); ok && len(blk.Succs) == 2 {
+						refine = e
+					}
+				}
+			}
+			if st == bot {
+				continue
+			}
+			if len(blk.Succs) == 0 {
+				counted := true
+				if len(blk.Nodes) > 0 {
+					switch x := blk.Nodes[len(blk.Nodes)-1].(type) {
+					case *ast.ReturnStmt:
+						counted = !isErrReturn(x)
+					case *ast.ExprStmt:
+						if call, ok := x.X.(*ast.CallExpr); ok {
+							if _, isB := info.Uses[identOf(call.Fun)].(*types.Builtin); isB && identOf(call.Fun).Name == "panic" {
+								counted = false
+							}
+						}
+					}
+				}
+				if counted {
+					exit = join(exit, st)
+				}
+				continue
+			}
+			for si, s := range blk.Succs {
+				nv := st
+				if refine != nil {
+					if be, ok := ast.Unparen(refine).(*ast.BinaryExpr); ok && (be.Op == token.EQL || be.Op == token.NEQ) && isCurBlock(info, be.X) && isNil(info, be.Y) {
+						isNilBranch := (be.Op == token.EQL) == (si == 0)
+						if isNilBranch {
+							nv = closed
+						} else {
+							nv = open
+						}
+					}
+				}
+				j := join(in[s.Index], nv)
+				if j != in[s.Index] {
+					in[s.Index] = j
+					if !queued[s.Index] {
+						queued[s.Index] = true
+						work = append(work, s.Index)
+					}
+				}
+			}
+		}
+		if !report {
+			return exit, nil
+		}
+		var out []siteRes
+		for _, nd := range order {
+			out = append(out, siteRes{nd, siteSeen[nd], bad[nd]})
+		}
+		return exit, out
+	}
+	// least fixed point of the summaries
+	for round := 0; ; round++ {
+		changed := false
+		for _, fn := range funcs {
+			if !changes[fn.Obj] {
+				continue
+			}
+			ex, _ := analyse(fn, false)
+			if j := join(summary[fn.Obj], ex); j != summary[fn.Obj] {
+				summary[fn.Obj] = j
+				changed = true
+			}
+		}
+		if !changed {
+			break
+		}
+		if round > 50 {
+			r.undecided(rule, "spirv/internal/codegen:summaries", "", "block-state summaries did not converge")
+			return
+		}
+	}
+	c.blockSummaries = map[string]int8{}
+	for f, s := range summary {
+		c.blockSummaries[f.FullName()] = s
+	}
+	n := 0
+	for _, fn := range funcs {
+		if !changes[fn.Obj] {
+			// still judge reads of currentBlock.X? they cannot be closed without a change: skip
+			continue
+		}
+		_, sites := analyse(fn, true)
+		ord := map[string]int{}
+		for _, s := range sites {
+			n++
+			ord[s.desc]++
+			cons := fn.id() + ":" + s.desc + "#" + itoa(ord[s.desc])
+			if s.msg != "" {
+				r.viol(rule, cons, c.pos(s.node.Pos()), fn.id()+": "+s.msg)
+			} else {
+				r.ok(rule, cons, c.pos(s.node.Pos()), "")
+			}
+		}
+	}
+	r.inst("spirv.blockstate", n)
+}
+
+func identOf(e ast.Expr) *ast.Ident {
+	id, _ := ast.Unparen(e).(*ast.Ident)
+	return id
+}
+
+func init() {
+	dumpers["blockstate"] = func(c *Ctx, parts []string) {
+		r := newReport("dump")
+		c.runBlockState(r, "spirv.blockstate")
+		names := []string{"bottom", "unknown", "open", "closed"}
+		var keys []string
+		for k := range c.blockSummaries {
+			keys = append(keys, k)
+		}
+		sort.Strings(keys)
+		for _, k := range keys {
+			println("summary", k, names[c.blockSummaries[k]+1])
+		}
+		for _, o := range r.Obs {
+			println(o.Verdict, o.Construct, o.Pos, o.Msg)
+		}
+	}
 }
